@@ -1,5 +1,5 @@
 #!/usr/bin/env python3
-"""gen_pipe.py <seed> [scale] : op lines `kalign_sys <type> <gpoBits> <gpeBits> <tgpeBits> <seq>...` for the system-level
+"""gen_pipe.py <seed> [scale] [opname] : op lines `kalign_sys <type> <gpoBits> <gpeBits> <tgpeBits> <seq>...` for the system-level
 correspondence of the composed pipeline model (harness/ops_pipe.c  <->  lean/KalignModel/Model/Pipeline.lean), to stdout.
 Seeded, no other source of randomness.  `scale` (default 1) multiplies the number of ops of every kind.
 
@@ -10,6 +10,8 @@ a few inputs with 100..160 sequences (bisecting k-means path) and a few with seq
 Hirschberg controller, `enda - starta >= 500`); all `type` values -1..6 (and a few others), default and user penalties
 (0, -0.0, small, large, above the 1e6 cap, inf, NaN); degenerate inputs (one sequence, all empty, fewer than two non-empty)."""
 import random, struct, sys
+
+OPNAME = "kalign_sys"
 
 DNA = "ACGT"
 RNA = "ACGU"
@@ -110,7 +112,7 @@ def pick_type(rng, kind):
 def line(rng, kind, seqs, typ=None, pen=None):
     typ = pick_type(rng, kind) if typ is None else typ
     pen = penalties(rng) if pen is None else pen
-    return "kalign_sys %d %s %s" % (typ, " ".join(pen), " ".join(s if s else "." for s in seqs))
+    return OPNAME + " %d %s %s" % (typ, " ".join(pen), " ".join(s if s else "." for s in seqs))
 
 
 def gen(seed, scale=1):
@@ -184,4 +186,5 @@ def gen(seed, scale=1):
 if __name__ == "__main__":
     seed = int(sys.argv[1]) if len(sys.argv) > 1 else 1
     scale = int(sys.argv[2]) if len(sys.argv) > 2 else 1
+    OPNAME = sys.argv[3] if len(sys.argv) > 3 else "kalign_sys"   # e.g. kalign_sys_soft (same harness call, SoftF32 model)
     print("\n".join(gen(seed, scale)))
